@@ -11,6 +11,7 @@ structure Points where
   rexc : List (Nat × Nat × Nat) := []         -- table, addr, code
   wexc : List (Nat × Nat × Nat) := []         -- table, addr, code
   ov : List ((Nat × Nat) × Nat) := []         -- overrides
+  dflt : Bool := false                        -- item `D`: the provided methods of `RequestHandler` (exception 01)
 deriving Repr
 
 def bitVal (seed addr : Nat) : Nat := if (addr * 7 + seed * 13 + addr / 8) % 3 = 0 then 1 else 0
@@ -25,6 +26,7 @@ def Points.lookup (p : Points) (table addr : Nat) : Option Nat :=
     | none => none
 
 def Points.read (p : Points) (table addr : Nat) : Except Nat Nat :=
+  if p.dflt then .error 1 else
   match p.rexc.find? (fun (t, a, _) => t = table ∧ a = addr) with
   | some (_, _, code) => .error code
   | none => match p.lookup table addr with
@@ -32,6 +34,7 @@ def Points.read (p : Points) (table addr : Nat) : Except Nat Nat :=
     | none => .error 2
 
 def Points.write (p : Points) (table addr value : Nat) : Except Nat Unit × Points :=
+  if p.dflt then (.error 1, p) else
   match p.wexc.find? (fun (t, a, _) => t = table ∧ a = addr) with
   | some (_, _, code) => (.error code, p)
   | none =>
@@ -77,6 +80,7 @@ def splitNats (s : String) (sep : Char) : List Nat :=
 def Points.parse (items : String) : Points :=
   (items.splitOn ",").foldl (fun p item =>
     if item.isEmpty then p else
+    if item = "D" then { p with dflt := true } else
     let kind := item.toList.head!
     let nums := splitNats (String.ofList item.toList.tail) '.'
     match kind, nums with
